@@ -35,7 +35,7 @@ var heads = []string{"def", "let", "fn", "defmacro", "macroexpand", "quasiquote"
 var shapes = []string{
 	"nil", "1", "\"s\"", ":k", "a", "zz", "&", "()", "(1)", "(a)", "(&)", "(a &)", "(& 1)", "(& a)", "(a & b c)", "(1 2)", "[]", "[a]", "[1]", "[& a]", "[a a]",
 	"{}", "{:a 1}", "#{}", "(fn (x) x)", "(fn)", "(catch)", "(catch e)", "(catch 1 2)", "(catch e 1)", "(catch (e) 1)", "(finally)", "(finally 1)", "(finally (throw 1))",
-	"(unquote)", "(splice-unquote)", "(unquote 1 2)", "(quote)", "(throw 1)", "(quasiquote (unquote))", "((splice-unquote))", "(list 1 2)", "+", "(atom 1)", "(do)",
+	"(unquote)", "(splice-unquote)", "(unquote 1 2)", "(quote)", "(throw 1)", "(quasiquote (unquote))", "((splice-unquote))", "(list 1 2)", "+", "(atom 1)", "(do)", "[catch e 2]", "[finally 2]", "[catch]", "[finally]", "[unquote 1]", "[splice-unquote a]", "[fn (x) x]", "[quote]", "[& a]", "{:catch e}", "#{}",
 }
 
 var wraps = []string{"%s", "(%s 1)", "(quasiquote ((unquote %s)))", "(try %s (catch e e))", "(eval (quote %s))", "(macroexpand %s)", "(do (defmacro zm (fn () (quote %s))) (zm))", "(let (f (fn () %s)) (f))", "(try 1 (finally %s))", "[%s]", "{:k %s}"}
